@@ -30,7 +30,10 @@ RULE = ("operations on the real internal/aes_ige code: doAES256IGEencrypt/decryp
         "DecryptMessageWithTempKeys for every payload length 0..512 (every residue of (20+len) mod 16) with the "
         "padding made reproducible by seeding math/rand; a conformant peer's messages (independent crypto/aes + "
         "crypto/sha1 implementation written from the definitions) for every answer length 0..512, every padding "
-        "amount 0..15 under every leading-zero combination; the unpadded hook and garbage ciphertexts. "
+        "amount 0..15 under every leading-zero combination; the unpadded hook and garbage ciphertexts. Every "
+        "argument of every operation lives in long-lived caller memory (byte slots, big.Ints) refilled in place: each "
+        "operation runs first with the complement of its arguments, then with its own (reported) ones, and the "
+        "arguments are overwritten after the call returned (the result must not move). "
         "distinct = distinct operation lines; each is compared with the Lean register model (Lean AES-256/SHA-1 "
         "plugged in) and judged by the independent reference implementation")
 
